@@ -1,6 +1,7 @@
 package props
 
 import (
+	"math/big"
 	"encoding/json"
 	"fmt"
 	"math/rand"
@@ -155,10 +156,40 @@ func writeJSON(b *strings.Builder, v any, indent string, level int) {
 			nl(level)
 		}
 		b.WriteString("]")
+	case rawNum:
+		b.WriteString(string(x))
 	default:
 		e, _ := json.Marshal(x)
 		b.Write(e)
 	}
+}
+
+// rawNum: a JSON number written with a chosen spelling (2, 2.0, 2e0, 20E-1 are one number, and one JSON-LD value)
+type rawNum string
+
+// one spelling per (document, number): every occurrence of a number in one document is written the same way (two
+// spellings of one number repeated under one property are the finding number-respelled-duplicate, exercised on its own)
+var c05NumSalt int64
+
+func spellInt(r *rand.Rand, n int64) any {
+	style := (n*7 + c05NumSalt) % 8
+	if style < 0 {
+		style = -style
+	}
+	switch style {
+	case 0:
+		return rawNum(fmt.Sprintf("%d.0", n))
+	case 1:
+		return rawNum(fmt.Sprintf("%de0", n))
+	case 2:
+		if n != 0 {
+			return rawNum(fmt.Sprintf("%d0E-1", n))
+		}
+		return rawNum("0.0e3")
+	case 3:
+		return rawNum(fmt.Sprintf("%d.000", n))
+	}
+	return n
 }
 
 func (v sVal) json(r *rand.Rand) any {
@@ -166,7 +197,7 @@ func (v sVal) json(r *rand.Rand) any {
 	case "s":
 		return v.s
 	case "i":
-		return v.i
+		return spellInt(r, int64(v.i))
 	case "b":
 		return v.b
 	case "ref":
@@ -205,6 +236,7 @@ func (n *sNode) json(r *rand.Rand) any {
 	return m
 }
 func (d sDoc) text(r *rand.Rand) string {
+	c05NumSalt = int64(r.Intn(8))
 	nodes := []any{}
 	for _, n := range d.nodes {
 		nodes = append(nodes, n.json(r))
@@ -444,6 +476,25 @@ func splitDescriptions(r *rand.Rand, d *sDoc) {
 			}
 			first := *n
 			first.props = append([]sProp{}, n.props[:cut]...)
+			// the values of ONE property stated partly here, partly there (embedded nodes without @id included: each is
+			// still stated once)
+			nFirst, nSecond := len(first.props), len(second.props)
+			for pi := 0; pi < nFirst; pi++ {
+				if vs := first.props[pi].vals; len(vs) >= 2 && r.Intn(2) == 0 {
+					k := 1 + r.Intn(len(vs)-1)
+					second.props = append(second.props, sProp{p: first.props[pi].p, vals: append([]sVal{}, vs[k:]...)})
+					first.props[pi].vals = append([]sVal{}, vs[:k]...)
+					first.props[pi].bare = false
+				}
+			}
+			for pi := 0; pi < nSecond; pi++ {
+				if vs := second.props[pi].vals; len(vs) >= 2 && r.Intn(2) == 0 {
+					k := 1 + r.Intn(len(vs)-1)
+					first.props = append(first.props, sProp{p: second.props[pi].p, vals: append([]sVal{}, vs[k:]...)})
+					second.props[pi].vals = append([]sVal{}, vs[:k]...)
+					second.props[pi].bare = false
+				}
+			}
 			out = append(out, &first)
 			extra = append(extra, second)
 		} else {
@@ -504,7 +555,11 @@ func canonIndex(norm any) string {
 				case string:
 					vals = append(vals, "s:"+x)
 				case json.Number:
-					vals = append(vals, "i:"+x.String())
+					if q, ok := new(big.Rat).SetString(x.String()); ok && q.IsInt() {
+						vals = append(vals, "i:"+q.Num().String())
+					} else {
+						vals = append(vals, "i:"+x.String())
+					}
 				case float64:
 					vals = append(vals, fmt.Sprintf("i:%v", x))
 				case bool:
@@ -549,6 +604,9 @@ warning:
   - typed
 info:
   - not-length
+  - all-b
+  - some-b
+  - min-b
   - msg-multi
   - named-data
   - named-core
@@ -565,6 +623,24 @@ validations:
     propertyConstraints:
       ex.core:
         maxCount: 0
+  all-b:
+    targetClass: ex.T
+    message: all
+    propertyConstraints:
+      ex.b:
+        containsAll: [ "1", lit-b0 ]
+  some-b:
+    targetClass: ex.T
+    message: some
+    propertyConstraints:
+      ex.b:
+        containsSome: [ "2", "7", lit-b1 ]
+  min-b:
+    targetClass: ex.T
+    message: "at least 2, got {{ex.single}}"
+    propertyConstraints:
+      ex.b | ex.single:
+        minInclusive: 2
   msg-multi:
     targetClass: ex.T
     message: "values {{ex.b}}"
@@ -626,8 +702,8 @@ validations:
 
 func C05(e *core.Env) {
 	res := e.Res
-	res.Rule = "cases = (abstract graph, serialisation): two chains of 40 and 75 nodes written flat and fully embedded (JSON nesting depth 80 / 150), graphs of 2-7 nodes with cycles, shared and single-parent children, literals of three kinds, dangling links and several types; each is written k times (quick 5, thorough 14) with independent random choices on every axis the property lists: @context prefixes (several prefixes for one namespace) or absolute IRIs, @vocab with bare terms for predicates and classes (some named like the built-in prefixes: data, core, doc), @base-relative ids, nodes embedded in their (only) parent or listed flat, @graph wrapper / top-level array / single object, node order, key order, one node described by two node objects with the same @id (also in the plain flat form AMF emits), single value vs one-element array, @type as string vs array, repeated values, indentation; " +
-		"(a) the real ProcessInput index of each text must equal JsonLd.flatten of the document structure that was written, (b) the reports of a 10-validation profile (counts, sets, patterns, nested over sequence / alternative / inverse paths, @type, negation, messages with placeholders) must agree across the k texts in conforms and in the set of (severity, validation, focus, message); non-trivial = the graph yields at least one result; distinct by text"
+	res.Rule = "cases = (abstract graph, serialisation): two chains of 40 and 75 nodes written flat and fully embedded (JSON nesting depth 80 / 150), graphs of 2-7 nodes with cycles, shared and single-parent children, literals of three kinds, dangling links and several types; each is written k times (quick 5, thorough 14) with independent random choices on every axis the property lists: @context prefixes (several prefixes for one namespace) or absolute IRIs, @vocab with bare terms for predicates and classes (some named like the built-in prefixes: data, core, doc), @base-relative ids, nodes embedded in their (only) parent or listed flat, @graph wrapper / top-level array / single object, node order, key order, one node described by two node objects with the same @id (also in the plain flat form AMF emits), single value vs one-element array, @type as string vs array, repeated values, indentation, the spelling of a number (2, 2.0, 2e0, 20E-1, 2.000: one JSON number, one JSON-LD value); " +
+		"(a) the real ProcessInput index of each text must equal JsonLd.flatten of the document structure that was written, (b) the reports of a 13-validation profile (counts, sets, containsAll / containsSome over numbers and strings, a numeric bound, patterns, nested over sequence / alternative / inverse paths, @type, negation, messages with placeholders) must agree across the k texts in conforms and in the set of (severity, validation, focus, message); non-trivial = the graph yields at least one result; distinct by text"
 	k := e.Pick(5, 14)
 	rc := config.DefaultReportConfiguration()
 	compiled, err := pkg.CompileProfile(c05Profile, false, nil)
@@ -679,6 +755,7 @@ func C05(e *core.Env) {
 			}
 		}
 		blanks := 0
+		firstParent, firstPn := 0, "a"
 		if gi%3 == 2 {
 			// leaf nodes without @id: each is the value of exactly one property of one named node
 			for i := 0; i < 2+e.Rand.Intn(3); i++ {
@@ -690,6 +767,10 @@ func C05(e *core.Env) {
 				leaf.Props = append(leaf.Props, GProp{Iri: ExNS + "b", Vals: []GVal{VI(i)}})
 				parent := e.Rand.Intn(len(g.Nodes))
 				pn := []string{"a", "b", "c"}[e.Rand.Intn(3)]
+				if i == 1 {
+					parent, pn = firstParent, firstPn // two leaves without @id under one property of one node
+				}
+				firstParent, firstPn = parent, pn
 				found := false
 				for pi := range g.Nodes[parent].Props {
 					if g.Nodes[parent].Props[pi].Iri == ExNS+pn {
@@ -822,5 +903,39 @@ func C05(e *core.Env) {
 				res.Sample(map[string]any{"reference": core.Trunc(refText, 900), "serialisation": core.Trunc(text, 1200), "results": strings.Count(sum, "\n")})
 			}
 		}
+	}
+	// directed: one number repeated under one property with two spellings (a repeated value, which JSON-LD states once)
+	{
+		mk := func(vals string) string {
+			return `{"@id":"` + NodeID(0) + `","@type":"` + ExNS + `T","` + ExNS + `a":[` + vals + `],"` + ExNS + `b":[` + vals + `],"` + ExNS + `single":[` + vals + `]}`
+		}
+		one, two, same := mk("4"), mk("4, 4.000"), mk("4, 4")
+		run := func(text string) string {
+			out, err := pkg.ValidateCompiledWithConfiguration(compiled, text, false, nil, clockA, rc)
+			if err != nil {
+				return "error: " + err.Error()
+			}
+			sm, _ := summary(out)
+			if rep, perr := ParseReport(out); perr == nil {
+				for _, r := range rep.Results {
+					if r.Name == "msg-multi" {
+						sm += "\nmsg-multi: " + r.Message
+					}
+				}
+			}
+			return sm
+		}
+		ref := run(one)
+		if got := run(same); got != ref {
+			res.Violate("impl-violates-property", "a value repeated under one property changes the verdict", map[string]any{"serialisation": same, "reference_serialisation": one, "results": got, "reference_results": ref, "profile": c05Profile})
+		}
+		if got := run(two); got != ref {
+			if res.KnownClass("number-respelled-duplicate") {
+				res.Known("number-respelled-duplicate", "one number stated twice under one property with two spellings (4 and 4.000) is kept as two values, so the document differs from the one that states the number once ("+firstDiff(ref, got)+")")
+			} else {
+				res.Violate("impl-violates-property", "one number stated twice under one property with two spellings changes the verdict", map[string]any{"serialisation": two, "reference_serialisation": one, "results": got, "reference_results": ref, "profile": c05Profile})
+			}
+		}
+		res.Case("directed|number-respelled-duplicate", true)
 	}
 }
